@@ -380,6 +380,7 @@ mod tests {
 }
 
 #[cfg(kani)]
+#[allow(semicolon_in_expressions_from_non_local_macros, unused)]
 mod verif_kani {
     include!(concat!(env!("VERIF_HARNESS"), "/actix_http/h1_payload.rs"));
 }
